@@ -281,6 +281,7 @@ def r4(cx):
 @rule("C12", "C12.R5", "records appended after open / repair are read back: writer resumes on a validated segment")
 def r5(cx):
     rule_open_after_repair(cx)
+    rule_writer_open_ignores_content(cx)
     rule_append_after_validated_tail(cx)
 
 
